@@ -4,7 +4,7 @@
 //!
 //! S7: `clock_gettime` is interposed like `getrandom`. A task thread reads a simulated clock: a
 //! base derived from its hash key (so two executions of one scenario never share it) that jumps
-//! by a little over a second on every read. Harness threads (no base set) get the real clock by
+//! by 0.2 to 3.2 seconds on every read, differently in every execution. Harness threads (no base set) get the real clock by
 //! raw system call, so watchdogs and wall-time accounting are unaffected.
 //!
 //! S8: before the task threads of an execution start, a dozen well-known variables are set to
@@ -16,6 +16,8 @@ use std::sync::atomic::{AtomicU64, Ordering};
 thread_local! {
     static BASE: Cell<Option<u64>> = const { Cell::new(None) };
     static READS: Cell<u64> = const { Cell::new(0) };
+    /// simulated time elapsed since BASE, in milliseconds
+    static ELAPSED_MS: Cell<u64> = const { Cell::new(0) };
 }
 
 /// Clock reads made by task threads (all of them): expected to stay 0 on a tree that holds C07
@@ -40,6 +42,7 @@ const SYS_CLOCK_GETTIME: i64 = 113;
 pub fn set_thread_clock(key: u64) {
     BASE.with(|b| b.set(Some(1_500_000_000 + key % 400_000_000)));
     READS.with(|r| r.set(0));
+    ELAPSED_MS.with(|r| r.set(0));
 }
 
 /// Back to the real clock (end of a task thread's subject work)
@@ -60,11 +63,19 @@ pub unsafe extern "C" fn clock_gettime(clock_id: i32, ts: *mut Timespec) -> i32 
                 v
             });
             TASK_READS.fetch_add(1, Ordering::Relaxed);
-            // every read is later than the one before, by more than a second
+            // every read is later than the one before, by 0.2 to 3.2 simulated seconds; how much
+            // depends on the thread's base, so that a duration measured by one execution is not
+            // the duration another execution measures
+            let step = 200 + crate::prng::mix64(base ^ n.wrapping_mul(0x9E37_79B9_7F4A_7C15)) % 3000;
+            let ms = ELAPSED_MS.with(|e| {
+                let v = e.get() + step;
+                e.set(v);
+                v
+            });
             // SAFETY: caller guarantees ts is valid
             unsafe {
-                (*ts).tv_sec = (base + n.wrapping_mul(1)) as i64 + n as i64;
-                (*ts).tv_nsec = ((n.wrapping_mul(123_456_789)) % 1_000_000_000) as i64;
+                (*ts).tv_sec = (base + ms / 1000) as i64;
+                (*ts).tv_nsec = ((ms % 1000) * 1_000_000) as i64;
             }
             0
         }
@@ -131,7 +142,7 @@ pub fn self_check() -> Result<(), String> {
     let (a1, b1) = sim(7);
     let (a2, _) = sim(7);
     let (a3, _) = sim(1_000_003);
-    if a1 != a2 || a1 == a3 || b1 <= a1 {
+    if a1 != a2 || a1 == a3 || b1 < a1 {
         return Err(format!(
             "clock seam: SystemTime::now() on a task thread is not the simulated clock ({a1},{b1},{a2},{a3})"
         ));
